@@ -96,16 +96,41 @@ def features(f):
     return feats, quant, nonlinear
 
 
+def sort_shape_cases(tier):
+    """SORT-SHAPE family: for every chain of depth 1..3 over Array index / element positions, every leaf sort
+    and filler sort, a formula that mentions the nested sort only through one carrier (sortshape.CARRIERS)."""
+    from pysmt.typing import BOOL, INT, REAL, STRING, BVType
+    from . import sortshape
+    fillers = ("Bool", "Int") if tier == "quick" else ("Bool", "Int", "Real", "BV8", "S")
+    for ch in sortshape.chains(("idx", "elt"), 1, 3 if tier == "quick" else 4):
+        for leaf in ("Bool", "Int", "Real", "BV8", "String", "S"):
+            for fil in fillers:
+                env = Environment()
+                named = {"Bool": BOOL, "Int": INT, "Real": REAL, "BV8": BVType(8), "String": STRING,
+                         "S": env.type_manager.Type("S", 0)}
+                t = sortshape.build_sort(env, named[leaf], ch, named[fil])
+                for c in sortshape.CARRIERS:
+                    f = sortshape.carrier_formula(env, t, c)
+                    if f is not None:
+                        yield env, f, "sortshape:%s:%s:%s:%s" % (leaf, "-".join(ch), fil, c)
+
+
 def run(chk, rnd, tier):
-    env = Environment()
+    env0 = Environment()
     n = 600 if tier == "quick" else 6000
-    g = FormulaGen(env, rnd, Config())
+    g = FormulaGen(env0, rnd, Config())
     cases, meta = [], []
     ops_seen = set()
     ok = True
-    for i in range(n):
-        t = rnd.choice(g.types)
-        f = g.gen(t, rnd.randint(1, 5))
+
+    def inputs():
+        for i in range(n):
+            yield env0, g.gen(rnd.choice(g.types), rnd.randint(1, 5)), "random"
+        for x in sort_shape_cases(tier):
+            yield x
+    nshape = 0
+    for env, f, fam in inputs():
+        nshape += fam != "random"
         try:
             th = env.theoryo.get_theory(f)
             exp = "(Some (%s, th_dec %d%%N))" % ("true" if env.qfo.is_qf(f) else "false", code(th))
@@ -123,18 +148,25 @@ def run(chk, rnd, tier):
             lg = get_logic(f, env)
         except NoLogicAvailableError:
             lg = None
-        if lg is not None:
-            missing = [x for x in feats if not getattr(lg.theory, x)]
-            if quant and lg.quantifier_free:
+        for what, theory, qf in (("get_logic(f) = %s" % lg, lg.theory if lg is not None else None, lg.quantifier_free if lg is not None else None),
+                                 ("env.theoryo.get_theory(f) = %s" % th, th, None)):
+            if theory is None:
+                continue
+            missing = [x for x in feats if not getattr(theory, x)]
+            if quant and qf:
                 missing.append("quantifiers")
-            if nonlinear and lg.theory.linear:
+            if nonlinear and theory.linear:
                 missing.append("non-linear")
             if missing:
                 ok = False
                 kinds = sorted(set(op.op_to_str(m.node_type()) for m in tocoq.topo([f])))
-                chk.violation({"kind": "input", "what": "get_logic(f) = %s does not enable %s" % (lg, sorted(missing)),
-                               "formula": f.serialize(), "node_types": kinds, "repro": "pysmt.oracles.get_logic(<formula>)"},
-                              key="detect:%s:%s" % (lg, ",".join(sorted(missing))))
+                sorts = sorted(set(str(m.symbol_type()) for m in tocoq.topo([f]) if m.is_symbol()))
+                chk.violation({"kind": "input", "what": "%s does not enable %s" % (what, sorted(missing)),
+                               "formula": f.serialize(), "node_types": kinds, "symbol_sorts": sorts, "family": fam,
+                               "repro": "pysmt.oracles.get_logic(<formula>) / env.theoryo.get_theory(<formula>)"},
+                              key="detect:%s:%s" % (lg if lg is not None else "no-logic", ",".join(sorted(missing))))
+                break
+    chk.cov.setdefault("correspondence", {})["detection_sort_shape_cases"] = nshape
     chk.sample({"kind": "detection", "formula": meta[0].serialize()[:300]})
     ok_def = ("Definition th_eqb (a b : theory) := t_eq a b.\n"
               "Definition ok (c : term * option (bool * theory)) : bool :=\n"
